@@ -49,7 +49,7 @@ func Profile(name string) Knobs {
 		k := base
 		k.PSkeleton = 0.2
 		k.MaxEntries, k.PCall = 5, 0.45
-		k.PLoop, k.PMatrix, k.PDepLoop = 0.3, 0.15, 0.1
+		k.PLoop, k.PMatrix, k.PDepLoop = 0.3, 0.25, 0.1
 		k.PDefer, k.PDeferCall = 0.15, 0.1
 		k.PUsesX = 0.6
 		k.MaxEvents = 60
@@ -198,6 +198,10 @@ func generate(rng *rand.Rand, k Knobs, profile string) *Prog {
 		}
 	}
 	pickX := func(t *Task) string {
+		if t.Run == WhenChanged && t.XVia == "env" {
+			// pairs that only differ by which name holds which value, or by one value under two names
+			return []string{"one,two", "two,one", "one,one", "two,two", "one", "two"}[rng.Intn(6)]
+		}
 		if t.Run == WhenChanged {
 			return []string{"one", "two"}[rng.Intn(2)]
 		}
@@ -328,6 +332,8 @@ func generate(rng *rand.Rand, k Knobs, profile string) *Prog {
 					e.MatrixRef = false
 				}
 				seenRef = true
+				// the list depends on the call variable where the instance's X is well defined
+				e.MatrixRefX = e.MatrixRef && t.UsesX && t.Run != Once && t.XVia == "" && rng.Intn(3) > 0
 			}
 		}
 	}
